@@ -36,8 +36,8 @@ REACH = [
     "insights/core/__init__.py::ConfigComponent.select",
 ]
 PLAN = {
-    "quick": {"shards": 8, "cases": 700, "timeout_s": 900, "min_evaluations": 80000,
-              "min_counters": {"queries_compared": 80000, "queries_with_matches": 15000, "boolean_values_compared": 300000, "roots_queries": 10000}},
+    "quick": {"shards": 8, "cases": 2100, "timeout_s": 900, "min_evaluations": 240000,
+              "min_counters": {"queries_compared": 240000, "queries_with_matches": 45000, "boolean_values_compared": 900000, "roots_queries": 30000}},
     "thorough": {"shards": 16, "cases": 15000, "timeout_s": 3300, "min_evaluations": 3000000,
                  "min_counters": {"queries_compared": 3000000}},
 }
